@@ -330,6 +330,18 @@ impl<'a> World<'a> {
                     }
                 }
             }
+            // ... and "live" means what the history made: every name the model holds is listed, nothing else is
+            // (the listing has just been compared with the reader's entries, whose names are exact)
+            if !self.faulty && self.relax.is_empty() && self.viols.is_empty() {
+                let model: std::collections::BTreeSet<[u8; 11]> = self.vols[dh.vol].dirs.get(&dh.dir).map(|d| d.entries.keys().cloned().collect()).unwrap_or_default();
+                let listed: std::collections::BTreeSet<[u8; 11]> = ents.iter().filter(|e| !e.is_dot()).map(|e| e.name).collect();
+                if let Some(n) = model.difference(&listed).next() {
+                    self.violate("C06", "listing-misses-live-entry", "", format!("{} exists by the history but is not listed ({} listed, {} expected)", fatspec::name_str(n), listed.len(), model.len()));
+                } else if let Some(n) = listed.difference(&model).next() {
+                    self.violate("C06", "listing-shows-unknown-entry", "", format!("{} is listed but nothing created it", fatspec::name_str(n)));
+                }
+                self.probes.hit("listing_compared_with_model");
+            }
             self.probes.hit("listing_checked");
             if ents.len() > 16 {
                 self.probes.hit("listing_over_one_block");
